@@ -559,3 +559,74 @@ func TestVF_C12_SingleFault(t *testing.T) {
 		"generated fault-free event lists (<=120 events, as TestVF_C12); then EVERY individual sink call the run makes before the recovery suffix (each check / start / write / stop of the motion, continuous and test sink) is made to fail in turn - a complete enumeration of single-fault placements per event list - with the oracles of TestVF_C12. Evaluations count the placements; non-trivial ones are those where the injected fault was reached.",
 		vfGenC12Single, vfRunC12Single)
 }
+
+
+// C17, continuous files longer than a 16-bit counter can number (max-secs*fps + 1 > 65536).
+type vfHugeCase struct {
+	FPS, Max int
+	N        int   `json:"frames"`
+	Motion   []int `json:"motion_at"`
+}
+
+func vfGenHuge(rt *rapid.T) vfHugeCase {
+	hc := vfHugeCase{FPS: rapid.SampledFrom([]int{9, 30, 60}).Draw(rt, "fps")}
+	hc.Max = 65536/hc.FPS + rapid.IntRange(1, 9).Draw(rt, "maxoff")
+	per := hc.Max*hc.FPS + 1
+	hc.N = 2*per + rapid.IntRange(5, 400).Draw(rt, "extra")
+	for i := rapid.IntRange(0, 4).Draw(rt, "nmotion"); i > 0; i-- {
+		hc.Motion = append(hc.Motion, rapid.IntRange(1, hc.N-1).Draw(rt, "motionat"))
+	}
+	return hc
+}
+
+func vfRunHuge(hc vfHugeCase) *kit.Result {
+	r := &kit.Result{NT: true}
+	per := hc.Max*hc.FPS + 1
+	if hc.FPS < 1 || hc.FPS > 60 || hc.Max < 1 || per > 70000 || hc.N < 1 || hc.N > 3*per {
+		r.Failf("malformed case")
+		return r
+	}
+	c := vfRecCase{Cfg: vfRecCfg{FPS: hc.FPS, Preview: 1, Min: 1, Max: hc.Max, Trigger: 1, W: 3, H: 3, Gap: 1, Cont: true}}
+	c.Ev = make([]vfEv, hc.N)
+	for i := range c.Ev {
+		c.Ev[i] = vfEv{K: vfEvFrame, T: 12*3600 + 1800}
+	}
+	for _, m := range hc.Motion {
+		if m >= 0 && m < hc.N {
+			c.Ev[m].M = true
+		}
+	}
+	run := vfDrive(c, nil)
+	if run.panicked != "" {
+		r.Failf("%s", run.panicked)
+		return r
+	}
+	recs, msg := vfBrackets(run.tr, 'c')
+	if msg != "" {
+		r.Failf("%s", msg)
+		return r
+	}
+	next := 0
+	for k, rec := range recs {
+		for _, id := range rec.IDs {
+			if id != next {
+				r.Failf("continuous file %d holds frame %d where frame %d is due", k, id, next)
+				return r
+			}
+			next++
+		}
+		if rec.StopEv >= 0 && len(rec.IDs) != per {
+			r.Failf("continuous file %d was closed with %d frames, want max-secs*fps+1 = %d (fps %d, max-secs %d)", k, len(rec.IDs), per, hc.FPS, hc.Max)
+			return r
+		}
+	}
+	if want := (hc.N + per - 1) / per; len(recs) != want || next != hc.N {
+		r.Failf("%d frames in %d continuous files, want %d frames in %d files", next, len(recs), hc.N, want)
+	}
+	return r
+}
+
+func TestVF_C17_HugeFiles(t *testing.T) {
+	kit.Drive(t, "C17", "TestVF_C17_HugeFiles", "generated (fps, max-secs) with max-secs*fps+1 between 65537 and 66100 frames per continuous file, streams of two such files and a bit with motion at a few places; every closed continuous file must hold exactly max-secs*fps+1 consecutive frames, the files tiling the stream. Every case counts as non-trivial.",
+		vfGenHuge, vfRunHuge)
+}
